@@ -90,8 +90,13 @@ def run(rep):
     rep.check('R10.a', fkey(crf), ok, '(prefix, Application) tuples become SubApplication(prefix, app)' if ok else
               'cast_to_route_factory no longer maps (prefix, Application) to SubApplication(*entry)', app, crf.node)
     ad = app.func('Application.add')
-    ok = any(isinstance(s, ast.Assign) and isinstance(s.value, ast.Call) and norm(s.value.func) == 'rf.bind_all' and
-             has_cond(conds(ad, s), lambda t: "getattr(rf, 'bind_all', None)" in norm(t), True) for s in stmts_of(ad.node))
+    rfv = [norm(s.targets[0]) for s in stmts_of(ad.node) if isinstance(s, ast.Assign) and isinstance(s.value, ast.Call)
+           and call_name(s.value) == 'cast_to_route_factory']
+    rf = rfv[0] if rfv else 'rf'
+    ok = any(isinstance(s, ast.Assign) and isinstance(s.value, ast.Call) and norm(s.value.func) == '%s.bind_all' % rf and
+             has_cond(conds(ad, s), lambda t: "getattr(%s, 'bind_all', None)" % rf in norm(t), True) for s in stmts_of(ad.node))
+    from .c06 import check_running_index
+    check_running_index(rep, 'R10.a')
     rep.check('R10.a', fkey(ad, 'uses bind_all'), ok, 'add() expands route factories through bind_all' if ok else 'add() does not use bind_all for sub-applications', app, ad.node)
     rep.floor('R10.a', 7)
 
@@ -185,7 +190,7 @@ def run(rep):
              and norm(c.args[1]) == 'self.rebind_render' for c in walk_body(ba.node))
     rep.check('R10.e', fkey(ba, 'rebind_render forwarded'), ok, 'bind_all forwards self.rebind_render' if ok else 'bind_all does not forward self.rebind_render', app, ba.node)
     ok = any(isinstance(c, ast.Call) and norm(c.func) == 'kwargs.setdefault' and isinstance(c.args[0], ast.Constant) and c.args[0].value == 'rebind_render'
-             and norm(c.args[1]) == "getattr(rf, 'rebind_render', True)" for c in walk_body(ad.node))
+             and norm(c.args[1]) == "getattr(%s, 'rebind_render', True)" % rf for c in walk_body(ad.node))
     rep.check('R10.e', fkey(ad, 'rebind_render default'), ok, 'add() defaults rebind_render from the route factory' if ok else
               'add() does not default rebind_render from the factory', app, ad.node)
     # render selection branches
